@@ -194,7 +194,7 @@ def r10_2(ctx):
                 stores += 1
                 ok = f.cls is not None and f.cls.name in ("LiveRender", "_LiveRender") and f.name in ("__init__", "__rich_console__")
                 ctx.check(ok, f.fq, short(f.module.parent_of.get(n, n)), f"{f.module.relpath}:{n.lineno}", "_shape written by a live renderer", "_shape written outside the live renderers' constructor/render method")
-    ctx.floor(stores, 5, "_shape stores")
+    ctx.floor(stores, 3, "_shape stores")
     # _LiveRender
     f = ctx.repo.fn("live:_LiveRender.__rich_console__")
     g = cfgmod.build(f.node)
@@ -261,6 +261,7 @@ def r10_2(ctx):
         defs = rd2.get(L.id, {}).get(arg.id, set()) if isinstance(arg, ast.Name) else set()
         ok = bool(defs)
         detail = ""
+        shape_stores = [n for n in g2.stmt_nodes() if n.kind == "stmt" and isinstance(n.stmt, ast.Assign) and norm(n.stmt.targets[0]) == "self._shape"]
         for d in defs:
             ds = g2.nodes[d].stmt
             v = getattr(ds, "value", None)
@@ -269,17 +270,31 @@ def r10_2(ctx):
                 detail = f"lines defined by `{short(ds) if ds is not None else '?'}`"
                 continue
             wn, hn = v.args[1], v.args[2]
-            # width,height must be the unpack of self._shape
+            # (a) width, height unpacked from self._shape after its stores, or
+            # (b) self._shape = (w, h) stored from the very same names (same reaching definitions)
+            form_a = True
             for nm in (wn, hn):
                 if not isinstance(nm, ast.Name):
-                    ok = False
-                    detail = "set_shape arguments are not the stored shape"
+                    form_a = False
                     continue
                 for dd in rd2.get(d, {}).get(nm.id, set()):
                     dv = getattr(g2.nodes[dd].stmt, "value", None)
                     if dv is None or norm(dv) != "self._shape":
-                        ok = False
-                        detail = f"`{nm.id}` is not unpacked from self._shape"
+                        form_a = False
+            form_b = False
+            if not form_a and isinstance(wn, ast.Name) and isinstance(hn, ast.Name):
+                for ss in shape_stores:
+                    tv = ss.stmt.value
+                    if isinstance(tv, ast.Tuple) and len(tv.elts) == 2 and norm(tv.elts[0]) == wn.id and norm(tv.elts[1]) == hn.id:
+                        if rd2.get(ss.id, {}).get(wn.id) == rd2.get(d, {}).get(wn.id) and rd2.get(ss.id, {}).get(hn.id) == rd2.get(d, {}).get(hn.id):
+                            # every path to the emission passes this store
+                            if g2.dominated_by(L.id, {ss.id}):
+                                form_b = True
+                    elif isinstance(tv, ast.Tuple):
+                        detail = f"_shape is stored as `{norm(tv)}` but the frame is shaped to ({norm(wn)}, {norm(hn)})"
+            if not (form_a or form_b):
+                ok = False
+                detail = detail or f"set_shape({norm(wn)}, {norm(hn)}) is not the stored _shape"
         ctx.check(ok, f2.fq, f"for ... in {norm(L.stmt.iter)}", f"{f2.module.relpath}:{L.lineno}", "emitted lines are set_shape()d to the stored (width, height)",
                   f"LiveRender emits lines that are not shaped to the stored _shape ({detail}): erase height and frame height disagree")
 
